@@ -157,14 +157,14 @@ package rtree
 //@   ensures !stopped ==> result == nil
 //@   ensures stopped && errors_is(lastErr, Stop) ==> result == nil
 //@   ensures stopped && !errors_is(lastErr, Stop) ==> result == lastErr
-//@   loop 0 invariant !stopped
+//@   loop 0 invariant !stopped && (cap(queue.entries) == 0 || fresh(queue.entries))
 
 // the queueing closure and the heap model are inlined into PrioritySearch; their loops keep the protocol state
 //@ func (*RTree).PrioritySearch$1
 //@   noverify
 //@   inline
-//@   loop 0 invariant !stopped
+//@   loop 0 invariant !stopped && (cap(queue.entries) == 0 || fresh(queue.entries))
 //@ func verifHeapShuffle
 //@   noverify
 //@   inline
-//@   loop 0 invariant !stopped
+//@   loop 0 invariant !stopped && (cap(queue.entries) == 0 || fresh(queue.entries))
